@@ -8,16 +8,16 @@ class FullyConnectedNN(torch.nn.Module):
 
     def __init__(self, in_dim, k, layers, class_count, dtype):
         super(FullyConnectedNN, self).__init__()
-        layers = []
-        layers.append(torch.nn.Flatten())
-        layers.append(torch.nn.Linear(in_dim, k, dtype=dtype))
-        layers.append(torch.nn.ReLU())
+        modules = []
+        modules.append(torch.nn.Flatten())
+        modules.append(torch.nn.Linear(in_dim, k, dtype=dtype))
+        modules.append(torch.nn.ReLU())
         for _ in range(layers - 2):
-            layers.append(torch.nn.Linear(k, k, dtype=dtype))
-            layers.append(torch.nn.ReLU())
+            modules.append(torch.nn.Linear(k, k, dtype=dtype))
+            modules.append(torch.nn.ReLU())
 
-        layers.append(torch.nn.Linear(k, class_count, dtype=dtype))
-        self.model = torch.nn.Sequential(*layers)
+        modules.append(torch.nn.Linear(k, class_count, dtype=dtype))
+        self.model = torch.nn.Sequential(*modules)
 
     def forward(self, x):
         """Forward pass of the fully connected neural network."""
